@@ -326,7 +326,7 @@ func c03Generate(e *c03Env, rnd *vh.Rand) error {
 					if nl == 1 && others == "missing" {
 						continue
 					}
-					if !thorough && nl > 2 && g.rnd.Chance(1, 2) {
+					if !thorough && (nl > 2 && g.rnd.Chance(1, 2) || nl == 2 && g.rnd.Chance(1, 3)) {
 						continue
 					}
 					g.reset()
@@ -351,7 +351,7 @@ func c03Generate(e *c03Env, rnd *vh.Rand) error {
 	lap("B wrappers")
 	// C. random nestings of depth <= 3 (4 in the thorough tier), random damage everywhere,
 	// verification disabled on some leaves
-	nrand := 500
+	nrand := 320
 	if thorough {
 		nrand = 6000
 	}
@@ -574,6 +574,157 @@ func c03Generate(e *c03Env, rnd *vh.Rand) error {
 		}
 	}
 	lap("F substitution")
+	// G. chunks are values: k chunks (2..6) are fetched from the same store / connection pool
+	// (size 1 and 3) and ALL kept; every one of them must still yield the bytes it was returned
+	// with after the later requests, after HasChunk / StoreChunk / another round of requests,
+	// and consumers that hold several chunks at once (AssembleFile with N >= 2 behind a gate,
+	// two index readers used alternately) must produce the blob.  Every backend, both formats,
+	// the wrappers on top.
+	type cfg struct {
+		name  string
+		build func() *c03Node
+	}
+	var cfgs []cfg
+	for _, kind := range leafKinds {
+		for _, unc := range []bool{false, true} {
+			for _, np := range []int{1, 3} {
+				kind, unc, np := kind, unc, np
+				cfgs = append(cfgs, cfg{fmt.Sprintf("%s/unc=%v/pool=%d", kind, unc, np), func() *c03Node {
+					n := g.leaf(kind, unc, false)
+					n.N = np
+					return n
+				}})
+			}
+		}
+	}
+	anyLeaf := func() *c03Node {
+		n := g.leaf(lk(), g.rnd.Bool(), false)
+		n.N = 1 + 2*g.rnd.Intn(2)
+		return n
+	}
+	uncLeaf := func() *c03Node { // the configuration in which a store's bytes reach the caller unconverted
+		n := g.leaf(lk(), true, false)
+		n.N = 1
+		return n
+	}
+	cfgs = append(cfgs,
+		cfg{"proto-session", func() *c03Node { n := g.wrap("proto", uncLeaf()); n.Keep = true; return n }},
+		cfg{"proto-session-skipleaf", func() *c03Node {
+			n := g.wrap("proto", g.leaf("local", g.rnd.Bool(), true))
+			n.Keep = true
+			return n
+		}},
+		cfg{"http-handler", func() *c03Node { n := g.wrap("http", g.leaf("local", false, true)); n.SComp = true; return n }},
+		cfg{"http-handler-unc", func() *c03Node { n := g.wrap("http", g.leaf("local", true, true)); n.Unc = true; return n }},
+		cfg{"http-handler-over-unc-remote", func() *c03Node { n := g.wrap("http", uncLeaf()); n.Unc = true; return n }},
+		cfg{"cache", func() *c03Node { return g.wrap("cache", uncLeaf(), g.leaf("local", g.rnd.Bool(), false)) }},
+		cfg{"cache-remote-cache", func() *c03Node { // the cache itself on a writable remote backend
+			k := "local"
+			for _, x := range leafKinds {
+				if x == "sftp" || x == "s3" {
+					if k == "local" || g.rnd.Bool() {
+						k = x
+					}
+				}
+			}
+			return g.wrap("cache", anyLeaf(), g.wrap("repair", g.leaf(k, true, false)))
+		}},
+		cfg{"router", func() *c03Node { return g.wrap("router", uncLeaf(), anyLeaf()) }},
+		cfg{"failover", func() *c03Node { return g.wrap("failover", uncLeaf(), anyLeaf()) }},
+		cfg{"dedup", func() *c03Node { return g.wrap("dedup", uncLeaf()) }},
+		cfg{"swap", func() *c03Node { return g.wrap("swap", uncLeaf()) }},
+		cfg{"wdedup", func() *c03Node { return g.wrap("wdedup", g.leaf("local", true, false)) }},
+		cfg{"cli-shape", func() *c03Node {
+			return g.wrap("cache", g.wrap("router", g.wrap("failover", uncLeaf(), uncLeaf()), anyLeaf()), g.wrap("repair", g.leaf("local", g.rnd.Bool(), false)))
+		}},
+	)
+	if e.sshOK {
+		for _, np := range []int{1, 2} {
+			np := np
+			cfgs = append(cfgs, cfg{fmt.Sprintf("ssh/pool=%d", np), func() *c03Node {
+				g.nk++
+				n := &c03Node{T: "ssh", K: g.nk - 1, Hop: g.nh, Keep: true, N: np}
+				g.nh++
+				return n
+			}})
+		}
+	}
+	if e.fakeSSH != "" && e.self != "" {
+		cfgs = append(cfgs, cfg{"ssh(foreign)", func() *c03Node {
+			g.nk++
+			n := &c03Node{T: "sshf", K: g.nk - 1, Hop: g.nh, Keep: true, N: 1}
+			g.nh++
+			return n
+		}})
+	}
+	reps := 1
+	if thorough {
+		reps = 5
+	}
+	for rep := 0; rep < reps; rep++ {
+		for _, cf := range cfgs {
+			g.reset()
+			digest := g.setDigest()
+			st := cf.build()
+			k := 2 + g.rnd.Intn(5)
+			same := g.rnd.Bool() // all chunks of one length, or of different lengths
+			base := []int{1, 7, 100, 700, 1500}[g.rnd.Intn(5)]
+			var datas [][]byte
+			seen := map[string]bool{}
+			for len(datas) < k {
+				n := base
+				if !same {
+					n = 1 + g.rnd.Intn(2*base+3)
+				}
+				d, _ := vh.Blob(g.rnd, n)
+				if d[0] == 0 { // keep clear of all-zero chunks
+					d[0] = byte(1 + len(datas))
+				}
+				if seen[string(d)] {
+					continue
+				}
+				seen[string(d)] = true
+				datas = append(datas, d)
+			}
+			c := &c03Case{Name: "held/" + cf.name, Digest: digest, Stack: st}
+			bad := -1
+			if g.rnd.Chance(1, 4) {
+				bad = g.rnd.Intn(k)
+			}
+			m := c03Multi{N: 2 + g.rnd.Intn(2)}
+			var blob []byte
+			for i, d := range datas {
+				id := c03ID(d)
+				for _, l := range c03Leaves(st) {
+					plant := "good"
+					if i == bad {
+						plant = []string{"flip-mid", "other-chunk", "missing", "empty"}[g.rnd.Intn(4)]
+					}
+					if obj, ok := c03Plant(g.rnd, plant, d, datas[(i+1)%k], l.unc); ok {
+						c.Slots = append(c.Slots, c03Slot{K: l.k, ID: id, Obj: vh.Hex(obj), Kind: plant})
+					}
+				}
+				c.Ops = append(c.Ops, "g:"+id)
+				m.IDs = append(m.IDs, id)
+				m.Sizes = append(m.Sizes, len(d))
+				blob = append(blob, d...)
+			}
+			if g.rnd.Bool() { // a second pass in another order
+				for _, i := range []int{k - 1, 0, k / 2} {
+					c.Ops = append(c.Ops, "g:"+c03ID(datas[i]))
+				}
+			}
+			m.Blob = vh.Hex(blob)
+			m.Kind = "assemble"
+			c.Multi = append(c.Multi, m)
+			m.Kind = "readers"
+			c.Multi = append(c.Multi, m)
+			if err := g.run(c); err != nil {
+				return err
+			}
+		}
+	}
+	lap("G held chunks")
 	return nil
 }
 
